@@ -24,11 +24,11 @@ let ftab64 : (string, BinNums.coq_N list) Hashtbl.t = Hashtbl.create 64
 let ftab32 : (string, BinNums.coq_N list) Hashtbl.t = Hashtbl.create 64
 
 let bytes_of_ascii (s : string) : BinNums.coq_N list =
-  Stdlib.List.init (String.length s) (fun i -> byte_tab.(Char.code s.[i]))
+  Stdlib.List.init (Stdlib.String.length s) (fun i -> byte_tab.(Char.code s.[i]))
 
 let unstr (t : string) : BinNums.coq_N list =
-  if String.length t = 0 || t.[0] <> '=' then failwith ("bad string token " ^ t)
-  else bytes_of_hex (String.sub t 1 (String.length t - 1))
+  if Stdlib.String.length t = 0 || t.[0] <> '=' then failwith ("bad string token " ^ t)
+  else bytes_of_hex (Stdlib.String.sub t 1 (Stdlib.String.length t - 1))
 let unstro (t : string) = if t = "-" then None else Some (unstr t)
 let hs (l : BinNums.coq_N list) = "=" ^ hex_of_bytes l
 let hso o = match o with Some l -> hs l | None -> "-"
@@ -55,24 +55,24 @@ let c32 (f : f32t) : string =
 
 let parse_dt t =
   if t = "-" then None else
-    match String.split_on_char ':' t with
+    match Stdlib.String.split_on_char ':' t with
     | [a; b] -> Some { dt_gps_time = f64_of a; dt_atomic = (b = "1") }
     | _ -> failwith ("bad dt " ^ t)
 let show_dt d = match d with None -> "-" | Some d -> c64 d.dt_gps_time ^ ":" ^ (if d.dt_atomic then "1" else "0")
 
 let parse_tr t =
   if t = "-" then None else
-    match Stdlib.List.map f64_of (String.split_on_char ':' t) with
+    match Stdlib.List.map f64_of (Stdlib.String.split_on_char ':' t) with
     | [rw; rx; ry; rz; tx; ty; tz] ->
       Some { t_rw = rw; t_rx = rx; t_ry = ry; t_rz = rz; t_tx = tx; t_ty = ty; t_tz = tz }
     | _ -> failwith ("bad tr " ^ t)
 let show_tr t = match t with
   | None -> "-"
-  | Some t -> String.concat ":" (Stdlib.List.map c64 [t.t_rw; t.t_rx; t.t_ry; t.t_rz; t.t_tx; t.t_ty; t.t_tz])
+  | Some t -> Stdlib.String.concat ":" (Stdlib.List.map c64 [t.t_rw; t.t_rx; t.t_ry; t.t_rz; t.t_tx; t.t_ty; t.t_tz])
 
 let parse_lim t =
   if t = "-" then None else
-    let a = String.sub t 1 (String.length t - 1) in
+    let a = Stdlib.String.sub t 1 (Stdlib.String.length t - 1) in
     Some (match t.[0] with
         | 'f' -> LSingle (f32_of a)
         | 'd' -> LDouble (f64_of a)
@@ -95,7 +95,7 @@ let parse_name (s : string) : record_name =
   | "row" -> RowIndex | "col" -> ColumnIndex | "rc" -> ReturnCount | "ri" -> ReturnIndex
   | "ts" -> TimeStamp | "its" -> IsTimeStampInvalid
   | _ ->
-    (match String.split_on_char '.' s with
+    (match Stdlib.String.split_on_char '.' s with
      | ["u"; ns; nm] -> Unknown (bytes_of_hex ns, bytes_of_hex nm)
      | _ -> failwith ("bad record name " ^ s))
 let show_name (n : record_name) : string =
@@ -110,7 +110,7 @@ let show_name (n : record_name) : string =
 
 let parse_dtype (s : string) : data_type =
   let o32 t = if t = "-" then None else Some (f32_of t) in
-  match String.split_on_char '/' s with
+  match Stdlib.String.split_on_char '/' s with
   | ["F"; mn; mx] -> DSingle (o32 mn, o32 mx)
   | ["D"; mn; mx] -> DDouble (o64 mn, o64 mx)
   | ["S"; mn; mx; sc; off] -> DScaledInteger (z_of_decimal mn, z_of_decimal mx, f64_of sc, f64_of off)
@@ -126,22 +126,22 @@ let show_dtype (t : data_type) : string =
   | DInteger (mn, mx) -> "I/" ^ decimal_of_z mn ^ "/" ^ decimal_of_z mx
 
 let parse_rec (t : string) : record =
-  match String.index_opt t '~' with
-  | Some k -> { r_name = parse_name (String.sub t 0 k); r_type = parse_dtype (String.sub t (k + 1) (String.length t - k - 1)) }
+  match Stdlib.String.index_opt t '~' with
+  | Some k -> { r_name = parse_name (Stdlib.String.sub t 0 k); r_type = parse_dtype (Stdlib.String.sub t (k + 1) (Stdlib.String.length t - k - 1)) }
   | None -> failwith ("bad record token " ^ t)
 let show_rec (r : record) = show_name r.r_name ^ "~" ^ show_dtype r.r_type
 
 (* RecordDataType::limits *)
 let limits_of (t : data_type) : limit_value option * limit_value option =
   match t with
-  | DSingle (mn, mx) -> (Option.map (fun f -> LSingle f) mn, Option.map (fun f -> LSingle f) mx)
-  | DDouble (mn, mx) -> (Option.map (fun f -> LDouble f) mn, Option.map (fun f -> LDouble f) mx)
+  | DSingle (mn, mx) -> (Stdlib.Option.map (fun f -> LSingle f) mn, Stdlib.Option.map (fun f -> LSingle f) mx)
+  | DDouble (mn, mx) -> (Stdlib.Option.map (fun f -> LDouble f) mn, Stdlib.Option.map (fun f -> LDouble f) mx)
   | DScaledInteger (mn, mx, _, _) -> (Some (LScaledInteger mn), Some (LScaledInteger mx))
   | DInteger (mn, mx) -> (Some (LInteger mn), Some (LInteger mx))
 
 let split6 (t : string) : string list option =
   if t = "-" then None else
-    match String.split_on_char ',' t with
+    match Stdlib.String.split_on_char ',' t with
     | [_; _; _; _; _; _] as l -> Some l
     | _ -> failwith ("bad bounds token " ^ t)
 let oz t = if t = "-" then None else Some (z_of_decimal t)
@@ -186,24 +186,24 @@ let dump_meta (m : MetaFile.file_meta) : string =
       Stdlib.List.iter (fun r -> add (show_rec r)) pc.pc_prototype;
       add (match pc.pc_original_guids with
           | None -> "og:-"
-          | Some v -> Printf.sprintf "og:%d%s" (Stdlib.List.length v) (String.concat "" (Stdlib.List.map (fun s -> "," ^ hs s) v)));
+          | Some v -> Printf.sprintf "og:%d%s" (Stdlib.List.length v) (Stdlib.String.concat "" (Stdlib.List.map (fun s -> "," ^ hs s) v)));
       add ("name:" ^ hso pc.pc_name);
       add ("desc:" ^ hso pc.pc_description);
       add (match pc.pc_cartesian_bounds with
           | None -> "cb:-"
-          | Some b -> "cb:" ^ String.concat "," (Stdlib.List.map so64 [b.cb_x_min; b.cb_x_max; b.cb_y_min; b.cb_y_max; b.cb_z_min; b.cb_z_max]));
+          | Some b -> "cb:" ^ Stdlib.String.concat "," (Stdlib.List.map so64 [b.cb_x_min; b.cb_x_max; b.cb_y_min; b.cb_y_max; b.cb_z_min; b.cb_z_max]));
       add (match pc.pc_spherical_bounds with
           | None -> "sb:-"
-          | Some b -> "sb:" ^ String.concat "," (Stdlib.List.map so64 [b.sb_range_min; b.sb_range_max; b.sb_elevation_min; b.sb_elevation_max; b.sb_azimuth_start; b.sb_azimuth_end]));
+          | Some b -> "sb:" ^ Stdlib.String.concat "," (Stdlib.List.map so64 [b.sb_range_min; b.sb_range_max; b.sb_elevation_min; b.sb_elevation_max; b.sb_azimuth_start; b.sb_azimuth_end]));
       add (match pc.pc_index_bounds with
           | None -> "ib:-"
-          | Some b -> "ib:" ^ String.concat "," (Stdlib.List.map soz [b.ib_row_min; b.ib_row_max; b.ib_column_min; b.ib_column_max; b.ib_return_min; b.ib_return_max]));
+          | Some b -> "ib:" ^ Stdlib.String.concat "," (Stdlib.List.map soz [b.ib_row_min; b.ib_row_max; b.ib_column_min; b.ib_column_max; b.ib_return_min; b.ib_return_max]));
       add (match pc.pc_intensity_limits with
           | None -> "il:-"
           | Some l -> "il:" ^ show_lim l.il_min ^ "," ^ show_lim l.il_max);
       add (match pc.pc_color_limits with
           | None -> "cl:-"
-          | Some l -> "cl:" ^ String.concat "," (Stdlib.List.map show_lim [l.cl_red_min; l.cl_red_max; l.cl_green_min; l.cl_green_max; l.cl_blue_min; l.cl_blue_max]));
+          | Some l -> "cl:" ^ Stdlib.String.concat "," (Stdlib.List.map show_lim [l.cl_red_min; l.cl_red_max; l.cl_green_min; l.cl_green_max; l.cl_blue_min; l.cl_blue_max]));
       add ("tr:" ^ show_tr pc.pc_transform);
       add ("as:" ^ show_dt pc.pc_acquisition_start);
       add ("ae:" ^ show_dt pc.pc_acquisition_end);
@@ -225,13 +225,13 @@ let dump_meta (m : MetaFile.file_meta) : string =
       add (match im.im_projection with
           | None -> "pr:-"
           | Some (PPinhole p) ->
-            String.concat "," (["pr:P"; show_iblob p.ph_blob; show_mask p.ph_mask; decimal_of_n p.ph_width; decimal_of_n p.ph_height]
+            Stdlib.String.concat "," (["pr:P"; show_iblob p.ph_blob; show_mask p.ph_mask; decimal_of_n p.ph_width; decimal_of_n p.ph_height]
                                @ Stdlib.List.map c64 [p.ph_focal_length; p.ph_pixel_width; p.ph_pixel_height; p.ph_principal_x; p.ph_principal_y])
           | Some (PSpherical p) ->
-            String.concat "," (["pr:S"; show_iblob p.si_blob; show_mask p.si_mask; decimal_of_n p.si_width; decimal_of_n p.si_height]
+            Stdlib.String.concat "," (["pr:S"; show_iblob p.si_blob; show_mask p.si_mask; decimal_of_n p.si_width; decimal_of_n p.si_height]
                                @ Stdlib.List.map c64 [p.si_pixel_width; p.si_pixel_height])
           | Some (PCylindrical p) ->
-            String.concat "," (["pr:C"; show_iblob p.ci_blob; show_mask p.ci_mask; decimal_of_n p.ci_width; decimal_of_n p.ci_height]
+            Stdlib.String.concat "," (["pr:C"; show_iblob p.ci_blob; show_mask p.ci_mask; decimal_of_n p.ci_width; decimal_of_n p.ci_height]
                                @ Stdlib.List.map c64 [p.ci_radius; p.ci_principal_y; p.ci_pixel_width; p.ci_pixel_height]));
       add ("tr:" ^ show_tr im.im_transform);
       add ("pg:" ^ hso im.im_pointcloud_guid);
@@ -270,9 +270,9 @@ let build (toks : string list) : MetaFile.file_meta * MetaFile.file_meta =
     | "LV" :: s :: r -> version := unstr s; orc r
     | "PCO" :: off :: rc :: cb :: sb :: ib :: r -> pcos := !pcos @ [(off, rc, cb, sb, ib)]; orc r
     | "IMO" :: a :: b :: c :: d :: r -> imos := !imos @ [(a, b, c, d)]; orc r
-    | t :: r when String.length t > 1 && (t.[0] = 'd' || t.[0] = 'f') && String.contains t '=' ->
-      let k = String.index t '=' in
-      let bits = String.sub t 1 (k - 1) and text = bytes_of_hex (String.sub t (k + 1) (String.length t - k - 1)) in
+    | t :: r when Stdlib.String.length t > 1 && (t.[0] = 'd' || t.[0] = 'f') && Stdlib.String.contains t '=' ->
+      let k = Stdlib.String.index t '=' in
+      let bits = Stdlib.String.sub t 1 (k - 1) and text = bytes_of_hex (Stdlib.String.sub t (k + 1) (Stdlib.String.length t - k - 1)) in
       Hashtbl.replace (if t.[0] = 'd' then ftab64 else ftab32) bits text; orc r
     | t :: _ -> failwith ("bad oracle token " ^ t) in
   orc oracle;
@@ -426,8 +426,8 @@ let run (kind : string) (toks : string list) : string option =
   match kind with
   | "METAWM" -> Some (run_metawm toks)
   | "XGDISPLAY" ->
-    Some (String.concat " " (Stdlib.List.map (fun t ->
-        if String.length t > 0 && t.[0] = '-' then hs (XmlGen.display_i (z_of_decimal t))
+    Some (Stdlib.String.concat " " (Stdlib.List.map (fun t ->
+        if Stdlib.String.length t > 0 && t.[0] = '-' then hs (XmlGen.display_i (z_of_decimal t))
         else
           let a = XmlGen.display_i (z_of_decimal t) and b = XmlGen.display_u (n_of_decimal t) in
           if a = b then hs a else "MISMATCH") toks))
